@@ -24,7 +24,13 @@ import (
 	"time"
 )
 
-const Root = "/verif"
+// Root is the framework directory (VERIF_ROOT, default /verif): evidence, known findings and replay files live under it.
+var Root = func() string {
+	if r := os.Getenv("VERIF_ROOT"); r != "" {
+		return r
+	}
+	return "/verif"
+}()
 
 // Check is one property check.
 type Check struct {
